@@ -37,6 +37,52 @@ impl Sub for RoundTrip {
     if !token.starts_with(p.header()) {
       vio!("{}:header:{}:{}", pid, p.label(), l.label(); "token {:?} does not start with {}", token, p.header());
     }
+    if c.before != 0 {
+      // attempts that fail for their own reasons, on this thread, before the round-trip parse: what a service does all day
+      // (key rotation fallbacks, tampered and foreign tokens). None of them may leave anything behind.
+      cl.tag("failed-attempts-before-the-round-trip");
+      let mut other_seed = c.seed();
+      other_seed[3] ^= 0x40;
+      other_seed[17] = other_seed[17].wrapping_add(1);
+      if p == Proto::V1P && keys::rsa_index(&other_seed) == keys::rsa_index(&c.seed()) {
+        other_seed[0] = other_seed[0].wrapping_add(1);
+      }
+      let km2 = keys::material(p, &other_seed);
+      if c.before & 1 != 0 {
+        if let Ok(lk2) = km2.lib() {
+          if let Ok(o) = layer_parse(p, l, &lk2, &token, footer.as_deref(), assertion.as_deref()) {
+            vio!("{}:accepted-under-other-key:{}:{}", pid, p.label(), l.label(); "token accepted under an unrelated key: {:?}", o.message());
+          }
+        }
+      }
+      if c.before & 2 != 0 {
+        let wrong = format!("{}~", footer.clone().unwrap_or_default());
+        let _ = layer_parse(p, l, &lk, &token, Some(&wrong), assertion.as_deref());
+      }
+      if c.before & 4 != 0 && p.has_assertion() {
+        let wrong = format!("{}~", assertion.clone().unwrap_or_default());
+        let _ = layer_parse(p, l, &lk, &token, footer.as_deref(), Some(&wrong));
+      }
+      if c.before & 8 != 0 {
+        if let Some((h, ps, fs)) = split_token(&token) {
+          if let Some(mut b) = unb64(&ps) {
+            if let Some(last) = b.last_mut() {
+              *last ^= 0x01;
+            }
+            let _ = layer_parse(p, l, &lk, &join_token(&h, &b, fs.as_deref()), footer.as_deref(), assertion.as_deref());
+            if b.len() > 40 {
+              b[36] ^= 0x80;
+              let _ = layer_parse(p, l, &lk, &join_token(&h, &b, fs.as_deref()), footer.as_deref(), assertion.as_deref());
+            }
+          }
+        }
+      }
+      if c.before & 16 != 0 {
+        for bad in ["", "v4.local.", "not a token", &token[..token.len() / 2]] {
+          let _ = layer_parse(p, l, &lk, bad, footer.as_deref(), assertion.as_deref());
+        }
+      }
+    }
     let out = match layer_parse(p, l, &lk, &token, footer.as_deref(), assertion.as_deref()) {
       Ok(o) => o,
       Err(e) => vio!("{}:parse-failed:{}:{}:{}", pid, p.label(), l.label(), e.variant; "authentic token rejected under the same key/footer/assertion: {} (token {})", e.text, token),
